@@ -362,7 +362,7 @@ done:
 						for i := 0; i < cnt; i++ {
 							iv := rv.Index(i)
 							if nv, changed := modifier(iv.Interface()); changed {
-								iv.Set(reflect.ValueOf(nv))
+								iv.Set(modValue(nv, iv.Type()))
 								if one && changed {
 									break done
 								}
@@ -376,7 +376,7 @@ done:
 						for _, k := range keys {
 							ev := rv.MapIndex(k)
 							if nv, changed := modifier(ev.Interface()); changed {
-								rv.SetMapIndex(k, reflect.ValueOf(nv))
+								rv.SetMapIndex(k, modValue(nv, rv.Type().Elem()))
 								if one && changed {
 									break done
 								}
@@ -521,7 +521,7 @@ done:
 								if 0 <= i && i < cnt {
 									iv := rv.Index(i)
 									if nv, changed := modifier(iv.Interface()); changed {
-										iv.Set(reflect.ValueOf(nv))
+										iv.Set(modValue(nv, iv.Type()))
 										if one && changed {
 											break done
 										}
@@ -717,7 +717,7 @@ done:
 							for i := start; i <= end; i += step {
 								iv := rv.Index(i)
 								if nv, changed := modifier(iv.Interface()); changed {
-									iv.Set(reflect.ValueOf(nv))
+									iv.Set(modValue(nv, iv.Type()))
 									if one && changed {
 										break done
 									}
@@ -727,7 +727,7 @@ done:
 							for i := start; end <= i; i += step {
 								iv := rv.Index(i)
 								if nv, changed := modifier(iv.Interface()); changed {
-									iv.Set(reflect.ValueOf(nv))
+									iv.Set(modValue(nv, iv.Type()))
 									if one && changed {
 										break done
 									}
@@ -824,7 +824,7 @@ done:
 							if matches[i] {
 								iv := rv.Index(i)
 								if nv, changed := modifier(iv.Interface()); changed {
-									iv.Set(reflect.ValueOf(nv))
+									iv.Set(modValue(nv, iv.Type()))
 									if one && changed {
 										break done
 									}
@@ -843,7 +843,7 @@ done:
 						for i, k := range keys {
 							if matches[i] {
 								if nv, changed := modifier(rv.MapIndex(k).Interface()); changed {
-									rv.SetMapIndex(k, reflect.ValueOf(nv))
+									rv.SetMapIndex(k, modValue(nv, rv.Type().Elem()))
 									if one && changed {
 										break done
 									}
@@ -987,4 +987,14 @@ func descentAddValue(stack []any, v any, fi fragIndex) []any {
 		}
 	}
 	return stack
+}
+
+// modValue returns the value a modifier gave as a reflect.Value that can be
+// stored in an element of the type et. A nil becomes the zero value of that
+// type, a null. (The zero reflect.Value would delete a map member.)
+func modValue(nv any, et reflect.Type) reflect.Value {
+	if nv == nil {
+		return reflect.Zero(et)
+	}
+	return reflect.ValueOf(nv)
 }
